@@ -220,4 +220,21 @@ PROPS['C01'] = {
     'assumptions': ['documented preconditions: Floor declared when pickndrop is used, box contents declared when actuate_box is, unique object for the distance rewards, a beacon for reach_exit_memory', 'observation space declares the state space types/colours and has the view shape with the agent inside the view (true for every shipped configuration)'],
 }
 
+PROPS['C19'] = {
+    'targets': ['GridVerse.Props.C19'],
+    'theorem_files': [('GridVerse/Props/C19.lean', 'C19_')],
+    'audit_prefix': 'C19_',
+    'families': {
+        'quick': [('harness.corr_rays', 'fam_rays', 5, 16), (OBSM, 'fam_vis_patterns', 0, 16)],
+        'thorough': [('harness.corr_rays', 'fam_rays', 9, 16), (OBSM, 'fam_vis_patterns', 0, 16)],
+    },
+    'oracle_cases': {'quick': 800, 'thorough': 40000},
+    'trusted_base': [
+        'IEEE-754 arithmetic, libm sin/cos/arctan2, numpy linspace/meshgrid/sort and Python round(): the sample sequence of each ray is an input of the model',
+        'coverage of the area by the fan is decided by enumeration on the implementation (all areas up to 5x5 quick / 9x9 thorough, every origin), judged by the verified checker coversArea: a test, not a theorem',
+    ],
+    'assumptions': ['sampleOK (bounded, monotone sample steps) is checked on every ray produced, not proved from floating point'],
+    'partial': 'proved: checker soundness/completeness (checkRay <-> RayOK), dedup/takewhile properties for every sample sequence, coverage => unobstructed view all visible, origin visibility, memoisation correctness for every query history. Not provable with the installed tooling: that the float ray marching yields adjacent steps ending on the border and that the arctan2 fan covers the area (libm); these are enumerated on the implementation.',
+}
+
 NOT_CLAIMED = {}
